@@ -33,6 +33,7 @@ fn must_refuse(w: &mut World, key: &mut UserSecretKey, what: &str, clause: &str)
             Err(_) => w.fail("C09.p", format!("refresh of {what}: panicked")),
             Ok(Ok(())) => {
                 w.fail(clause, format!("refresh(keep={keep}) accepted {what}"));
+                w.fail("C09.e", format!("refresh(keep={keep}) of {what} returned Ok, the contract says Err"));
                 return;
             }
             Ok(Err(_)) => {}
